@@ -13,6 +13,7 @@
 From Coq Require Import String.
 Require Import V.Base.MachineInt.
 Require Import V.Generated.GenConsts.
+Require Import V.Generated.GenCommands.
 Require Import V.Model.LogBase.
 Require Import V.Model.Broadcast.
 Require Import V.Model.BroadcastShow.
@@ -26,6 +27,8 @@ Require Import V.Proofs.LossyProofs.
 Require Import V.Proofs.C08Proofs.
 Require Import V.Model.BroadcastThreads.
 Require Import V.Proofs.BroadcastThreadsProofs.
+Require Import V.Proofs.BroadcastOrder.
+Require Import V.Proofs.C08JudgeProofs.
 Open Scope Z_scope.
 
 (* K1: the layout constants the model uses are the ones the compiler produced *)
@@ -46,6 +49,16 @@ Example C08_known_types :
      CMD_ResponseOnCounterReady; 3849; CMD_ResponseOnClientTimeout] = true /\
   forallb (fun t => negb (known_type t)) [0; 15; 100; 101; 3840; 3851; -2] = true.
 Proof. split; reflexivity. Qed.
+
+(* K1: known_type (the event codes CopyBroadcastReceiver::receive can turn into an AeronCommand without hitting
+   from_command_id's unreachable!()) agrees, on every id of the scanned range -65536 .. 65536, with what the compiled
+   from_command_id did (Generated/GenCommands.v, the table property C14 proves the dispatch of DriverListenerAdapter from) *)
+Definition known_scan_step (st : Z * bool) : Z * bool :=
+  let '(id, ok) := st in
+  (id + 1, ok && Bool.eqb (known_type id) (existsb (fun r => fst r =? id) from_id_rows)).
+Example C08_known_type_scan :
+  Z.iter (from_id_scan_hi - from_id_scan_lo + 1) known_scan_step (from_id_scan_lo, true) = (from_id_scan_hi + 1, true).
+Proof. vm_compute. reflexivity. Qed.
 
 (* The model refines the lossy channel on every history: same results, same lapped counts, same errors. *)
 Theorem C08_refines : forall cap k m hv c0 pre h,
@@ -210,12 +223,12 @@ Print Assumptions C08_collapse_transmit.
    but proved only for sequential histories (C08_order, C08_overrun). *)
 Theorem C08_seqlock_partial : forall cap k m hv c0 pre msgs nrecv sched,
   cap = 2 ^ k -> 5 <= k <= 30 -> conc_ok cap c0 pre msgs ->
-  let g := grun cap m hv (ginit cap c0 pre msgs nrecv) sched in
+  let g := grun cap m hv W64 (ginit cap c0 pre msgs nrecv) sched in
   g_s g = run_schedule m W64 hv cap (init_cstate cap c0 pre msgs nrecv) sched /\
   (g_ok g = true ->
    Forall (fun res => match res with RMsg ty bs => In (ty, bs) (transmitted_pre cap pre ++ msgs) | _ => True end)
           (r_out (c_rx (g_s g)))).
-Proof. intros cap k m hv c0 pre msgs nrecv sched Hc Hk. exact (seqlock_delivery cap k Hc Hk m hv c0 pre msgs nrecv sched). Qed.
+Proof. intros cap k m hv c0 pre msgs nrecv sched Hc Hk. exact (seqlock_delivery cap k Hc Hk m hv W64 ltac:(discriminate) c0 pre msgs nrecv sched). Qed.
 Print Assumptions C08_seqlock_partial.
 
 (* non-vacuity: a schedule in which the receiver is pre-empted inside its first receive while the transmitter
@@ -224,7 +237,7 @@ Example C08_seqlock_example :
   let pre := [(3847, payload 900 0)] in
   let msgs := [(5, payload 10 4); (1, payload 11 4); (3844, payload 12 0); (3845, payload 13 4)] in
   let sched := [1; 1; 0; 0; 0; 0; 0; 0; 0; 0; 0; 0; 0; 0; 0; 0; 0; 0; 0; 0; 0; 0; 0; 0; 0; 0; 0; 0; 0; 0; 0; 0; 1; 1; 1; 1; 1; 1; 1; 1; 1; 1; 1; 1; 1; 1; 1; 1] in
-  let g := grun 32 Debug true (ginit 32 1099511627792 pre msgs 3) sched in
+  let g := grun 32 Debug true W64 (ginit 32 1099511627792 pre msgs 3) sched in
   g_ok g = true /\ rev (r_out (c_rx (g_s g))) = [RErr UnableToKeepUp; RErr UnableToKeepUp; RNone] /\
   r_end (c_rx (g_s g)) = RLive.
 Proof. vm_compute. repeat split. Qed.
@@ -237,7 +250,7 @@ Example C08_lap_inside_receive_next_witness :
   let pre := [(3847, payload 900 4)] in
   let msgs := [(1, payload 10 1); (2, payload 11 1); (3843, payload 12 1)] in
   let sched := [0; 0; 0; 0; 0; 0; 0; 1; 1; 1; 1] ++ repeat 0 40%nat ++ repeat 1 40%nat in
-  let g := grun 32 Release true (ginit 32 1099511627784 pre msgs 2) sched in
+  let g := grun 32 Release true W64 (ginit 32 1099511627784 pre msgs 2) sched in
   conc_ok 32 1099511627784 pre msgs /\ g_ok g = false /\
   match r_out (c_rx (g_s g)) with
   | [RMsg 3847 bs; RErr UnableToKeepUp] => length bs = 114%nat /\ ~ In (3847, bs) (pre ++ msgs)
@@ -248,6 +261,143 @@ Proof.
   - unfold conc_ok, msg_ok. cbn [fst snd length]. repeat split; try (repeat constructor; reflexivity); try reflexivity; try lia.
   - vm_compute. reflexivity.
   - vm_compute. split; [reflexivity|]. intros [H|[H|[H|[H|[]]]]]; discriminate H.
+Qed.
+
+(* ---------------------------------------------------------------- C08_seqlock in full: interleaved order and loss reporting
+   (Proofs/BroadcastOrder.v).  The sequential theorems C08_order / C08_complete / C08_overrun for one transmitter
+   thread || one copying receiver thread under EVERY schedule, as one inductive invariant of the two pc-machines.
+
+   `jst all i0 ann i lost` judges the receiver's results so far (newest first; `ann` pairs each result with a message
+   number, meaningful for deliveries) against `all`, the messages handed to transmit (those sent before the receiver
+   existed first), i0 = the number of the message the receiver joined at (the last one sent before it existed):
+     - a delivery `RMsg ty bs` annotated j requires  nth_error all j = Some (ty, bs)  - the event handed to the handler
+       IS transmitted message number j, same type, same bytes, never a mixture;
+     - i (initially i0) is the number of the first message neither delivered nor skipped yet; a delivery needs i <= j and
+       moves i to j + 1: message numbers strictly increase - transmission order, no duplicate;
+     - j > i (messages i .. j-1 skipped) is allowed only when `lost`: an error (UnableToKeepUp; or BufferTooSmall for a
+       message larger than the scratch buffer) has been returned since the previous delivery (or since the start).
+   Class exclusion, exactly the class lap-inside-receive-next of KNOWN_FINDINGS.txt: `h_in g` is set when the
+   receive_next of the code as found reads a header word (length / type at its cursor - which after a failed
+   validation is the `latest` counter it has just read -, length at offset 0 after a padding record) while
+   tail-intent > position of that record + capacity, i.e. the receiver is lapped inside receive_next and computes
+   cursor / next_record from overwritten bytes. *)
+Theorem C08_interleaved : forall cap k m hv c0 pre msgs nrecv sched,
+  cap = 2 ^ k -> 5 <= k <= 30 -> conc_ok cap c0 pre msgs ->
+  let g := hrun cap m hv W64 (hinit cap c0 pre msgs nrecv) sched in
+  h_s g = run_schedule m W64 hv cap (init_cstate cap c0 pre msgs nrecv) sched /\
+  (h_in g = false ->
+   exists ann i lost, map fst ann = r_out (c_rx (h_s g)) /\
+     jst (transmitted_pre cap pre ++ msgs) (Nat.pred (length (transmitted_pre cap pre))) ann i lost /\
+     (* drained (the interleaved C08_drained): the receiver is between two receives, a receive starting now would return 0
+        messages (tail counter <= next_record), no loss report is pending: every message whose transmit has completed
+        (h_ch g) has been delivered or was skipped with a report *)
+     (r_pc (c_rx (h_s g)) = RIdle -> c_tail (h_ch g) <= next_record (r_rx (c_rx (h_s g))) -> lost = false ->
+      (length (allmsgs (h_ch g)) <= i)%nat)).
+Proof.
+  intros cap k m hv c0 pre msgs nrecv sched Hc Hk OK g.
+  destruct (interleaved cap k Hc Hk m hv W64 ltac:(discriminate) _ _ c0 pre msgs nrecv sched OK eq_refl eq_refl) as [E J].
+  split; [exact E|]. intros Hin. apply J. intros _. exact Hin.
+Qed.
+Print Assumptions C08_interleaved.
+
+(* the repaired receive_next (fixes/C08-receive-next-revalidate.diff): every schedule, no exclusion *)
+Theorem C08_interleaved_repaired : forall cap k m hv c0 pre msgs nrecv sched,
+  cap = 2 ^ k -> 5 <= k <= 30 -> conc_ok cap c0 pre msgs ->
+  let g := hrun cap m hv W64R (hinit cap c0 pre msgs nrecv) sched in
+  h_s g = run_schedule m W64R hv cap (init_cstate cap c0 pre msgs nrecv) sched /\
+  exists ann i lost, map fst ann = r_out (c_rx (h_s g)) /\
+    jst (transmitted_pre cap pre ++ msgs) (Nat.pred (length (transmitted_pre cap pre))) ann i lost /\
+    (r_pc (c_rx (h_s g)) = RIdle -> c_tail (h_ch g) <= next_record (r_rx (c_rx (h_s g))) -> lost = false ->
+     (length (allmsgs (h_ch g)) <= i)%nat).
+Proof.
+  intros cap k m hv c0 pre msgs nrecv sched Hc Hk OK g.
+  destruct (interleaved cap k Hc Hk m hv W64R ltac:(discriminate) _ _ c0 pre msgs nrecv sched OK eq_refl eq_refl) as [E J].
+  split; [exact E|]. apply J. intros Rv. discriminate Rv.
+Qed.
+Print Assumptions C08_interleaved_repaired.
+
+(* what the judgement implies: the events handed to the handler (oldest first) are a subsequence of the transmitted
+   messages - the interleaved C08_order *)
+Theorem C08_interleaved_order : forall all i0 ann i lost,
+  jst all i0 ann i lost -> subseq (handed (map fst ann)) all.
+Proof. intros all i0 ann i lost J. rewrite <- dels_handed. exact (jst_order all i0 ann i lost J). Qed.
+Print Assumptions C08_interleaved_order.
+
+(* the interleaved C08_complete: as long as no error has been returned nothing is skipped - the events handed to the
+   handler are exactly the messages number i0 .. i-1, in order *)
+Theorem C08_interleaved_complete : forall all i0 ann i lost,
+  jst all i0 ann i lost -> (forall e j, ~ In (RErr e, j) ann) ->
+  lost = false /\ handed (map fst ann) = firstn (i - i0) (skipn i0 all).
+Proof. intros all i0 ann i lost J NE. rewrite <- dels_handed. exact (jst_complete all i0 ann i lost J NE). Qed.
+Print Assumptions C08_interleaved_complete.
+
+(* C08_seqlock of DESIGN.md for the repaired code, every schedule: every message handed to the handler is byte-identical
+   to one of the transmitted messages.  (C08_seqlock_partial above is the statement for the code as found.) *)
+Theorem C08_seqlock : forall cap k m hv c0 pre msgs nrecv sched,
+  cap = 2 ^ k -> 5 <= k <= 30 -> conc_ok cap c0 pre msgs ->
+  let s := run_schedule m W64R hv cap (init_cstate cap c0 pre msgs nrecv) sched in
+  Forall (fun res => match res with RMsg ty bs => In (ty, bs) (transmitted_pre cap pre ++ msgs) | _ => True end)
+         (r_out (c_rx s)) /\
+  subseq (handed (r_out (c_rx s))) (transmitted_pre cap pre ++ msgs).
+Proof.
+  intros cap k m hv c0 pre msgs nrecv sched Hc Hk OK s.
+  destruct (C08_interleaved_repaired cap k m hv c0 pre msgs nrecv sched Hc Hk OK) as [E (ann & i & lost & Ea & J & _)].
+  cbv zeta in E. unfold s. rewrite <- E, <- Ea.
+  pose proof (C08_interleaved_order _ _ _ _ _ J) as Sub. split; [|exact Sub].
+  apply Forall_forall. intros res Hres. destruct res; auto.
+  apply (subseq_In _ _ Sub). apply handed_In. exact Hres.
+Qed.
+Print Assumptions C08_seqlock.
+
+(* The oracle evaluated on the implementation's observations (C08Oracle.holds_conc = `judge` on the receiver's results,
+   sent = the messages as (type, hex), start index = the message the receiver joined at) accepts every result list the
+   theorems' judgement accepts, when the messages are pairwise distinct and the only error returned is UnableToKeepUp;
+   fq is the oracle's final-quiet switch (last receive began after the transmitter's last access): its clause is the
+   `drained` conjunct of C08_interleaved.  So on runs covered by the theorems the oracle raises no alarm. *)
+Theorem C08_oracle_conc_accepts : forall all i0 fq ann i lost,
+  NoDup (map showm all) ->
+  jst all i0 ann i lost -> Forall only_lap (map fst ann) -> quiet_ok all fq ann i lost ->
+  judge (map showm all) (Z.of_nat (length (map showm all))) (map show_rres (rev (map fst ann))) (Z.of_nat i0) false fq = true.
+Proof. intros all i0 fq ann i lost ND. exact (oracle_accepts_jst all i0 ND fq ann i lost). Qed.
+Print Assumptions C08_oracle_conc_accepts.
+
+(* the repaired code is never in the class *)
+Theorem C08_repaired_not_in_class : forall cap m hv g sched,
+  h_in (hrun cap m hv W64R g sched) = h_in g.
+Proof. intros. apply hrun_in_repaired. reflexivity. Qed.
+Print Assumptions C08_repaired_not_in_class.
+
+(* non-vacuity, capacity 64, seven 8-byte messages (four records fill the buffer).
+   (1) code as found, outside the class: message 1 is delivered, the transmitter then sends five more (a lap) while the
+       receiver is between two receives; the next receive reports UnableToKeepUp, the one after it finds nothing, and
+       after message 7 has been sent it is delivered: numbers 0 and 6, the gap preceded by the report.
+   (2) the receiver is stopped right after the validation inside receive_next while the transmitter laps it: the run is
+       in the class (code as found) ...
+   (3) ... and on the same schedule the repaired code reports the loss and then delivers message 6 *)
+Definition ex_msgs : list (Z * list Z) :=
+  [(1, payload 11 8); (2, payload 12 8); (3, payload 13 8); (4, payload 14 8); (5, payload 15 8); (6, payload 16 8); (7, payload 17 8)].
+Example C08_interleaved_example :
+  let s1 := repeat 0 7%nat ++ repeat 1 9%nat ++ repeat 0 35%nat ++ repeat 1 6%nat ++ repeat 0 7%nat ++ repeat 1 9%nat in
+  let s2 := repeat 0 7%nat ++ repeat 1 2%nat ++ repeat 0 35%nat ++ repeat 1 30%nat in
+  let g1 := hrun 64 Debug true W64 (hinit 64 1099511627776 [] ex_msgs 4) s1 in
+  let g2 := hrun 64 Debug true W64 (hinit 64 1099511627776 [] ex_msgs 4) s2 in
+  let g3 := hrun 64 Debug true W64R (hinit 64 1099511627776 [] ex_msgs 4) s2 in
+  conc_ok 64 1099511627776 [] ex_msgs /\
+  (h_in g1 = false /\
+   rev (r_out (c_rx (h_s g1))) = [RMsg 1 (payload 11 8); RErr UnableToKeepUp; RNone; RMsg 7 (payload 17 8)] /\
+   jst ex_msgs 0 [(RMsg 7 (payload 17 8), 6%nat); (RNone, 0%nat); (RErr UnableToKeepUp, 0%nat); (RMsg 1 (payload 11 8), 0%nat)] 7 false) /\
+  h_in g2 = true /\
+  (h_in g3 = false /\ rev (r_out (c_rx (h_s g3))) = [RErr UnableToKeepUp; RMsg 6 (payload 16 8); RNone; RNone]).
+Proof.
+  cbn zeta. split; [|split; [split; [|split]|split; [|split]]].
+  - unfold conc_ok, msg_ok, ex_msgs. cbn [fst snd length]. repeat split; try (repeat constructor; reflexivity); try reflexivity; try lia.
+  - vm_compute. reflexivity.
+  - vm_compute. reflexivity.
+  - eapply j_msg; [eapply j_none; eapply j_err; eapply (j_msg ex_msgs 0 [] 0 false); [constructor|reflexivity|lia|auto]
+                  |reflexivity|lia|discriminate].
+  - vm_compute. reflexivity.
+  - vm_compute. reflexivity.
+  - vm_compute. reflexivity.
 Qed.
 
 (* lag jumps (Spec/LossyJump.v) are a harness device; without jumps the jump-aware runs and oracle are the plain ones *)
